@@ -484,6 +484,8 @@ def get_attribute(I, o, name, default=_NOCONST):
     elif isinstance(o, VFunc):
         if name == "__name__":
             return VStr(o.name)
+    if isinstance(o, VTuple) and getattr(o, "pylist", False):
+        raise Unsupported("method/attribute %s of a concrete python list of unencodable values" % name)
     if isinstance(o, VClass) and name == "__name__":
         return getattr(o, "unknown_name", None) or VStr(o.name)
     if default is not _NOCONST:
@@ -503,6 +505,13 @@ def call(I, f, args, kwargs, node=None):
                 not (I.ver.cur is not None and I.ver.cur.key == f.qual and not I.fn_stack[1:]):
             uf = I.ver.spec_name(I.ver.reg.opaques[f.qual])
             a = ([f.selfv] if f.selfv is not None else []) + list(args)
+            if kwargs or len(a) < len(f.node.args.posonlyargs + f.node.args.args + f.node.args.kwonlyargs):
+                # keyword / defaulted arguments: bind by the real signature so that the uninterpreted function always
+                # receives one value per declared parameter, in declaration order (positional, then keyword-only)
+                e0 = Env(None, f.module)
+                I.bind_params(f.node, a, dict(kwargs), e0, Env(None, f.module))
+                a = [e0.vars[p.arg] for p in f.node.args.posonlyargs + f.node.args.args + f.node.args.kwonlyargs]
+                kwargs = {}
             if uf.kind == "builtin":
                 return uf.impl(I, a, kwargs)
             saved = I.spec
@@ -933,6 +942,8 @@ def _isinst(I, v, nm):
             return nm == "deque"
         return nm in ("list", "Sequence")
     if isinstance(v, VTuple):
+        if getattr(v, "pylist", False):
+            return nm in ("list", "Sequence")
         return nm in ("tuple", "Sequence")
     if isinstance(v, (VSet, VEmptySet)):
         return nm in ("set",)
@@ -1798,7 +1809,8 @@ def comprehension(I, n, env):
     p.assume(z3.ForAll([j, j2], z3.Implies(z3.And(0 <= j, j < j2, j2 < res.n), sel(j) < sel(j2)),
                        patterns=[z3.MultiPattern(sel(j), sel(j2))]))
     hit_pats = [rank(i)]
-    if base.arr is not None:
+    if base.arr is not None and z3.is_const(base.arr) and base.arr.decl().kind() == z3.Z3_OP_UNINTERPRETED:
+        # (a Store/Lambda/ite-valued array is not a legal trigger: "'if' cannot be used in patterns")
         hit_pats.append(z3.Select(base.arr, i))
     p.assume(z3.ForAll([i], z3.Implies(z3.And(0 <= i, i < base.n, cond),
                                       z3.And(0 <= rank(i), rank(i) < res.n, sel(rank(i)) == i,
